@@ -4,7 +4,7 @@
    [handle_v original] is the code as found. [lv] stands for the parsers of
    external crates that the model does not re-state (quantified over). *)
 From Coq Require Import NArith List Bool.
-From RV Require Import Http.DispatchText Http.DispatchModel Http.DispatchProofs.
+From RV Require Import Http.DispatchText Http.DispatchModel Http.DispatchProofs Http.ConcModel Http.ConcProofs.
 Import ListNotations.
 Local Open Scope N_scope.
 
@@ -150,3 +150,150 @@ Example C12_example :
     [Resp 405 false; Resp 404 false; Resp 200 true; Resp 400 false; Resp 200 false; Resp 418 false; Resp 400 false; Resp 200 false]
   /\ forallb request_ok (flat_map (fun o => match o with OReq r => [r] | _ => [] end) ex_ops) = true.
 Proof. vm_compute. split; reflexivity. Qed.
+
+(* ------------------------------------------------------------------------------------------------
+   Concurrency (Http/ConcModel.v). Part 1: Resources::register as threads run it - acquire / load /
+   build / store / release steps of any number of threads under any schedule, owners dropping their
+   processors at any moment. [LockAll] is the code as it is (mutex around load .. store). *)
+
+(* The live entries of the collection are, at every moment of every interleaving, those of the
+   sequential history in the log (registrations in the order of their stores, drops where they
+   happened), computed with DispatchModel's register / drop_src. *)
+Theorem C12_conc_register_is_sequential : forall init progs sched,
+  forallb src_alive init = true ->
+  live (rs_dead (rrun LockAll (rinit init progs) sched)) (rs_cur (rrun LockAll (rinit init progs) sched))
+  = filter src_alive (seq_run init (rs_log (rrun LockAll (rinit init progs) sched))).
+Proof. exact reg_conc_is_sequential. Qed.
+Print Assumptions C12_conc_register_is_sequential.
+
+(* ... hence no request can tell it from the sequential engine's [run] over that history: every theorem
+   above that quantifies over histories speaks about concurrently registering components too. *)
+Theorem C12_conc_requests_as_sequential : forall vr lv c n init progs sched r,
+  forallb src_alive init = true ->
+  handle_v vr lv (conc_config c n (rrun LockAll (rinit init progs) sched)) r
+  = handle_v vr lv (MkCfg c n (cf_sources (fst (run lv (MkCfg c n init) (rs_log (rrun LockAll (rinit init progs) sched)))))) r.
+Proof. exact reg_conc_requests_as_run. Qed.
+Print Assumptions C12_conc_requests_as_sequential.
+
+(* Every register call that has returned left its endpoint in the collection (same processor, same
+   sub-resource flag) for as long as the owner keeps the processor alive - after any interleaving. *)
+Theorem C12_conc_all_registered_present : forall init progs sched t th id r,
+  forallb src_alive init = true ->
+  nth_error (rs_thr (rrun LockAll (rinit init progs) sched)) t = Some th ->
+  In (id, r) (rt_ret th) ->
+  ~ In id (rs_dead (rrun LockAll (rinit init progs) sched)) ->
+  exists e, In e (rs_cur (rrun LockAll (rinit init progs) sched)) /\
+            src_id e = id /\ src_proc e = rr_proc r /\ src_sub e = rr_sub r.
+Proof. exact reg_conc_all_present. Qed.
+Print Assumptions C12_conc_all_registered_present.
+
+(* ... and when all threads are done, the calls that have returned are exactly the calls of the programs. *)
+Theorem C12_conc_all_calls_return : forall v init progs sched,
+  all_returned (rrun v (rinit init progs) sched) = true ->
+  map (fun th => map snd (rt_ret th)) (rs_thr (rrun v (rinit init progs) sched)) = progs.
+Proof. exact reg_conc_all_returned. Qed.
+Print Assumptions C12_conc_all_calls_return.
+
+(* The order invariant of C12_sub_resources_first holds at every moment of every interleaving (with or
+   without the mutex: every vec that is stored was built from a vec that was loaded). *)
+Theorem C12_conc_sub_resources_first : forall v init progs sched a b pre mid post,
+  subs_first init = true ->
+  rs_cur (rrun v (rinit init progs) sched) = pre ++ a :: mid ++ b :: post ->
+  src_sub b = true -> src_sub a = true.
+Proof. exact reg_conc_subs_first. Qed.
+Print Assumptions C12_conc_sub_resources_first.
+
+(* With the mutex only around the store - or without it - two overlapping registrations lose one
+   endpoint: both calls returned, nothing was dropped, and the first component's path answers 404. *)
+Theorem C12_conc_lock_store_only_refuted :
+  let s := rrun LockStore (rinit [] w_progs) w_sched in
+  all_returned s = true /\ rs_dead s = [] /\
+  map rt_ret (rs_thr s) = [[(0, MkRq (PStub k_a 200) false)]; [(1, MkRq (PStub k_b 200) false)]] /\
+  rs_cur s = [MkSrc 1 (PStub k_b 200) false true] /\
+  handle lv0 (conc_config false 0 s) w_req_a = Resp 404 false /\
+  handle lv0 (conc_config false 0 s) w_req_b = Resp 200 false.
+Proof. exact reg_conc_lock_store_only_refuted. Qed.
+Print Assumptions C12_conc_lock_store_only_refuted.
+
+Theorem C12_conc_no_lock_refuted :
+  let s := rrun LockNone (rinit [] w_progs) w_sched in
+  all_returned s = true /\ rs_dead s = [] /\
+  map rt_ret (rs_thr s) = [[(0, MkRq (PStub k_a 200) false)]; [(1, MkRq (PStub k_b 200) false)]] /\
+  rs_cur s = [MkSrc 1 (PStub k_b 200) false true] /\
+  handle lv0 (conc_config false 0 s) w_req_a = Resp 404 false /\
+  handle lv0 (conc_config false 0 s) w_req_b = Resp 200 false.
+Proof. exact reg_conc_no_lock_refuted. Qed.
+Print Assumptions C12_conc_no_lock_refuted.
+
+(* non-vacuity: the same two programs and the same schedule on the code as it is *)
+Example C12_conc_register_example :
+  let s := rrun LockAll (rinit [] w_progs) w_sched in
+  all_returned s = true /\
+  rs_cur s = [MkSrc 0 (PStub k_a 200) false true; MkSrc 1 (PStub k_b 200) false true] /\
+  handle lv0 (conc_config false 0 s) w_req_a = Resp 200 false /\
+  handle lv0 (conc_config false 0 s) w_req_b = Resp 200 false /\
+  request_ok w_req_a = true /\ request_ok w_req_b = true.
+Proof. exact reg_conc_example. Qed.
+
+(* Part 2: the connection's Mutex<Option<BmpState>> - the connection task (process_msg: take .. put in
+   one critical section, any number of await points in between; its own as_ref().unwrap() sites), any
+   number of router-info requests and router-list renderings, any schedule. [HoldLock] = the code as it is. *)
+
+(* the invariant the router-info handler relies on: the Option is Some whenever the mutex is free *)
+Theorem C12_statelock_some_when_free : forall base names st0 thr sched,
+  forallb fresh_thread thr = true -> forallb no_abort thr = true ->
+  ls_owner (lrun HoldLock base names (linit st0 thr) sched) = None ->
+  ls_val (lrun HoldLock base names (linit st0 thr) sched) <> None.
+Proof. exact statelock_some_when_free. Qed.
+Print Assumptions C12_statelock_some_when_free.
+
+(* every router-info request that was answered got the answer of the sequential model - never a panic *)
+Theorem C12_statelock_info_answers : forall base names st0 thr sched t r x,
+  forallb fresh_thread thr = true -> forallb no_abort thr = true ->
+  nth_error (ls_thr (lrun HoldLock base names (linit st0 thr) sched)) t = Some (TInfo r (QDone x)) ->
+  x = info_process base names r /\ x <> PPanic.
+Proof. exact statelock_info_answers. Qed.
+Print Assumptions C12_statelock_info_answers.
+
+(* the router list never finds the state gone; the connection task never panics on its own state *)
+Theorem C12_statelock_list_and_handler : forall base names st0 thr sched t,
+  forallb fresh_thread thr = true -> forallb no_abort thr = true ->
+  (forall b, nth_error (ls_thr (lrun HoldLock base names (linit st0 thr) sched)) t = Some (TList (LDone b)) -> b = true) /\
+  (forall prog pc pan, nth_error (ls_thr (lrun HoldLock base names (linit st0 thr) sched)) t = Some (THandler prog pc pan) -> pan = false).
+Proof. exact statelock_list_and_handler. Qed.
+Print Assumptions C12_statelock_list_and_handler.
+
+(* nobody waits for ever: whoever holds the lock is a thread whose next step is enabled *)
+Theorem C12_statelock_holder_runs : forall base names st0 thr sched t,
+  forallb fresh_thread thr = true -> forallb no_abort thr = true ->
+  ls_owner (lrun HoldLock base names (linit st0 thr) sched) = Some t ->
+  exists th, nth_error (ls_thr (lrun HoldLock base names (linit st0 thr) sched)) t = Some th /\ holds th = true /\
+             nth_error (ls_thr (lstep HoldLock base names (lrun HoldLock base names (linit st0 thr) sched) t)) t <> Some th.
+Proof. exact statelock_holder_runs. Qed.
+Print Assumptions C12_statelock_holder_runs.
+
+(* take - RELEASE - process - acquire - put: after the take the lock is free and the Option is None; the
+   info request that gets the lock panics (no response), the router list skips the router. The same
+   schedule on the code as it is: both wait and are served. *)
+Theorem C12_statelock_release_refuted :
+  let s1 := lrun ReleaseLock k_routers [k_one] (linit 0 w_threads) (firstn 2 w_lsched) in
+  let s := lrun ReleaseLock k_routers [k_one] (linit 0 w_threads) w_lsched in
+  ls_owner s1 = None /\ ls_val s1 = None /\
+  nth_error (ls_thr s) 1 = Some (TInfo w_info_req (QDone PPanic)) /\
+  nth_error (ls_thr s) 2 = Some (TList (LDone false)) /\
+  let s' := lrun HoldLock k_routers [k_one] (linit 0 w_threads) w_lsched in
+  nth_error (ls_thr s') 1 = Some (TInfo w_info_req (QDone (PResp 200))) /\
+  nth_error (ls_thr s') 2 = Some (TList (LDone true)) /\
+  forallb fresh_thread w_threads = true /\ forallb no_abort w_threads = true.
+Proof. exact statelock_release_refuted. Qed.
+Print Assumptions C12_statelock_release_refuted.
+
+(* the hypothesis no_abort is needed: the (dead) Aborted arm of process_msg returns without putting the
+   state back, after which the connection task's own cleanup panics *)
+Theorem C12_statelock_abort_refuted :
+  let thr := [THandler [MAbort; MPeek] HIdle false] in
+  let s1 := lrun HoldLock k_routers [k_one] (linit 0 thr) [0; 0; 0]%nat in
+  let s := lrun HoldLock k_routers [k_one] (linit 0 thr) [0; 0; 0; 0; 0]%nat in
+  ls_owner s1 = None /\ ls_val s1 = None /\ nth_error (ls_thr s) 0 = Some (THandler [] HIdle true).
+Proof. exact statelock_abort_refuted. Qed.
+Print Assumptions C12_statelock_abort_refuted.
